@@ -11,7 +11,7 @@
 //!       orders) stepped through a fresh recorder; prints the items of every readout.
 
 use metrics_024 as metrics;
-use metrique_metricsrs::MetricRecorder;
+use metrique_metricsrs::{MetricAccumulatorEntry, MetricRecorder};
 use metrique_writer_core::{Entry, EntryConfig, EntryWriter, MetricFlags, Observation, Unit, ValidationError, Value, ValueWriter};
 use rand::Rng;
 use rand::seq::IndexedRandom;
@@ -71,6 +71,8 @@ fn obs_json(total: f64, occ: u64) -> J {
 struct RecWriter {
     items: Vec<Item>,
     timestamps: u32,
+    /// Debug rendering of every EntryConfig passed to the writer
+    configs: Vec<String>,
 }
 
 struct ItemWriter<'w> {
@@ -132,7 +134,48 @@ impl<'a> EntryWriter<'a> for RecWriter {
         let name = name.into().into_owned();
         value.write(ItemWriter { name, out: &mut self.items });
     }
-    fn config(&mut self, _config: &'a dyn EntryConfig) {}
+    fn config(&mut self, config: &'a dyn EntryConfig) {
+        self.configs.push(format!("{config:?}"));
+    }
+}
+
+/// The documented way to nest a readout in a parent entry is `remove_timestamp()`: apart from the
+/// timestamp the nested readout must write exactly what the stand-alone one writes (items and entry
+/// configuration), and a real EMF formatter must accept it. Returns a description of what differs.
+fn nested_differs(mut e: MetricAccumulatorEntry<dyn metrics::Recorder>) -> Option<String> {
+    use metrique_writer_core::format::Format;
+    let emf_err = |entry: &MetricAccumulatorEntry<dyn metrics::Recorder>| {
+        let mut emf = metrique_writer_format_emf::Emf::all_validations("VerifNS".to_string(), vec![vec![]]);
+        let mut out = Vec::new();
+        emf.format(entry, &mut out).err().map(|err| format!("{err}"))
+    };
+    let render = |w: &RecWriter| w.items.iter().map(|i| i.json().to_string()).collect::<Vec<_>>();
+    let mut plain = RecWriter::default();
+    e.write(&mut plain);
+    let (plain_items, plain_configs, plain_ts) = (render(&plain), plain.configs.clone(), plain.timestamps);
+    drop(plain);
+    // (if EMF does not take the stand-alone readout either - for reasons of its own - there is nothing to compare)
+    let standalone_ok = emf_err(&e).is_none();
+    e.remove_timestamp();
+    let mut nested = RecWriter::default();
+    e.write(&mut nested);
+    if plain_ts != 1 || nested.timestamps != 0 {
+        return Some(format!("timestamps written: stand-alone {plain_ts}, after remove_timestamp() {}", nested.timestamps));
+    }
+    if plain_items != render(&nested) {
+        return Some(format!("items differ after remove_timestamp(): {plain_items:?} vs {:?}", render(&nested)));
+    }
+    if plain_configs != nested.configs {
+        return Some(format!("entry configuration differs after remove_timestamp(): {plain_configs:?} vs {:?}", nested.configs));
+    }
+    drop(nested);
+    if !standalone_ok {
+        return None;
+    }
+    if let Some(err) = emf_err(&e) {
+        return Some(format!("EMF rejects the readout after remove_timestamp() (nothing is written for this interval): {err}"));
+    }
+    None
 }
 
 fn replay_entry(e: &impl Entry) -> Vec<Item> {
@@ -570,6 +613,7 @@ fn cmd_seq(a: &HashMap<String, String>) {
             .collect();
         let rec: Recorder = MetricRecorder::new_with_emit_zero_counters(emit_zero);
         let mut readouts: Vec<J> = Vec::new();
+        let mut nested: Vec<J> = Vec::new();
         let res = util::catch(|| {
             metrics::with_local_recorder(&rec, || {
                 for st in b["steps"].as_array().unwrap() {
@@ -615,8 +659,12 @@ fn cmd_seq(a: &HashMap<String, String>) {
                             }
                         }
                         "Readout" => {
-                            let items = replay_entry(&rec.readout());
+                            let entry = rec.readout();
+                            let items = replay_entry(&entry);
                             readouts.push(J::Array(items.iter().map(|i| i.json()).collect()));
+                            if let Some(d) = nested_differs(entry) {
+                                nested.push(json!({"readout": readouts.len(), "what": d}));
+                            }
                         }
                         op => panic!("tool: unknown op {op}"),
                     }
@@ -624,7 +672,7 @@ fn cmd_seq(a: &HashMap<String, String>) {
             })
         });
         let row = match res {
-            Ok(()) => json!({"id": id, "readouts": readouts}),
+            Ok(()) => json!({"id": id, "readouts": readouts, "nested": nested}),
             Err(p) if p.contains("tool:") => {
                 eprintln!("tool error in behaviour {id}: {p}");
                 std::process::exit(2);
